@@ -26,9 +26,9 @@ KIND_NAME = {
 }
 
 
-def shapes(max_each: int):
+def shapes(max_pos: int, max_kw: int):
     """Texts of parameter lists: every count/default pattern; names p*, a*, k*; annotation and default constants are unique."""
-    for npos, narg, nkw in itertools.product(range(max_each + 1), repeat=3):
+    for npos, narg, nkw in itertools.product(range(max_pos + 1), range(max_pos + 1), range(max_kw + 1)):
         for ndef in range(npos + narg + 1):
             for vararg, kwarg_ in itertools.product((False, True), repeat=2):
                 for mask in itertools.product((False, True), repeat=nkw):
@@ -58,11 +58,11 @@ def run(prog: Program, ctx: Ctx) -> None:  # noqa: PLR0912,PLR0915
     it = Interp(prog)
     ctx.rule("R1", "get_parameters (abstractly evaluated on the real ast.arguments of each parameter-list shape) lists the same names, order, "
                    "kinds, annotations and defaults-per-parameter as inspect.signature of the function compiled from the same text")
-    max_each = 2 if ctx.tier == "quick" else 3
+    max_pos, max_kw = (3, 2) if ctx.tier == "quick" else (4, 3)
     n_shapes = 0
     bad_classes: set[str] = set()
     tuple_shape: tuple[int, int, int, int] | None = None
-    for text in shapes(max_each):
+    for text in shapes(max_pos, max_kw):
         src = f"def f({text}): pass"
         try:
             tree = ast.parse(src)
@@ -104,7 +104,7 @@ def run(prog: Program, ctx: Ctx) -> None:  # noqa: PLR0912,PLR0915
             bad_classes.add(cls)
         ctx.ob("R1", f"shape|{text}" if ok else f"shape-class|{_shape_class(text)}", ok,
                f"def f({text}): griffe lists {got if got is not None else res}; CPython binds {want}", where(gp), nontrivial=bool(text))
-    ctx.expect_min("R1", n_shapes, 500)
+    ctx.expect_min("R1", n_shapes, 1500)
     ctx.analysed["parameter_list_shapes"] = n_shapes
 
     # ------------------------------------------------------------------ R2 consumers
@@ -207,6 +207,13 @@ def run(prog: Program, ctx: Ctx) -> None:  # noqa: PLR0912,PLR0915
         defs = [s for s in walk_no_nested(hf.node) if isinstance(s, (ast.Assign, ast.AnnAssign)) and unparse(s.targets[0] if isinstance(s, ast.Assign) else s.target) == recv]
         ok2 = len(defs) == 1 and "members[node.name]" in unparse(defs[0].value).replace(" ", "")
         ctx.ob("R4", key(hf, f"{which}-on-existing-property"), ok2, f"the {which} is attached to the member already stored under the same name", where(hf, n))
+    # the setter/deleter scan must look at every decorator: a non-matching decorator is skipped, it does not end the scan
+    gbp = prog.function("_griffe.agents.visitor.Visitor.get_base_property")
+    for lp in [n for n in walk_no_nested(gbp.node) if isinstance(n, ast.For) and "decorators" in unparse(n.iter)]:
+        early = [n for n in ast.walk(lp) if isinstance(n, ast.Break) or (isinstance(n, ast.Return) and (n.value is None or (isinstance(n.value, ast.Constant) and n.value.value is None)))]
+        ctx.ob("R4", key(gbp, "scan-all-decorators"), not early,
+               "the scan over decorators never stops at a non-matching one (a decorator stacked above @prop.setter must not hide it)" if not early else
+               f"the decorator scan ends early (`{norm(early[0])}`): a decorator stacked above @prop.setter hides the setter and the property is replaced", where(gbp, lp))
     ov_disc = [s for s in walk_no_nested(hf.node) if isinstance(s, ast.AugAssign) and unparse(s.target) == "overload" and isinstance(s.op, ast.BitOr)]
     ctx.ob("R4", key(hf, "overload-detection"), len(ov_disc) == 1 and "typing_overload" in unparse(ov_disc[0].value) and "callable_path" in unparse(ov_disc[0].value),
            "a function is an overload when any decorator's callable path is in typing_overload", where(hf))
